@@ -17,11 +17,12 @@ def generate(tier, seed, info, salt=None):
     rnd = random.Random(seed * 131 + (salt or SALT))
     n_cases = 800 if tier == "quick" else 6000
     lines = []
-    stats = {"nload": {}, "last_nonload": 0, "got": 0, "stack": 0, "symtab": 0, "bytes": 0}
+    stats = {"nload": {}, "paddr_mode": {}, "last_nonload": 0, "got": 0, "stack": 0, "symtab": 0, "bytes": 0}
     for cid in range(1, n_cases + 1):
         elf, meta = elfgen.build(rnd, big=(cid % (8 if tier == "quick" else 4) == 0))
         args = elfgen.gen_args(rnd)
         stats["nload"][meta["nload"]] = stats["nload"].get(meta["nload"], 0) + 1
+        stats["paddr_mode"][meta["pmode"]] = stats["paddr_mode"].get(meta["pmode"], 0) + 1
         stats["last_nonload"] += 0 if meta["last_is_load"] else 1
         stats["got"] += 1 if meta["has_got"] else 0
         stats["stack"] += 1 if meta["has_stack"] else 0
